@@ -155,7 +155,7 @@ def tab_f(ctx):
     b = F.body(FN)
     fl, ln = b["span"]["f"], b["span"]["l"]
     eng = atoms_engine(F)
-    outs = eng.call_path(FN, eng.symbolic_args(b))
+    outs = eng.call_path(FN, eng.symbolic_args(b, names=["extended_header", "filter_config_opt", "ecu_id"]))
     exits = []
     for st, rv in outs:
         res = eng.simplify_cond(st, rv.cond) if isinstance(rv, Bool) else None
